@@ -322,7 +322,7 @@ pub fn product_or_diagonal(doms: &[Vec<Option<Value>>], cap: usize) -> Vec<Vec<O
     if doms.iter().any(|d| d.is_empty()) {
         return vec![];
     }
-    let total: u128 = doms.iter().map(|d| d.len() as u128).product();
+    let total: u128 = doms.iter().fold(1u128, |acc, d| acc.saturating_mul(d.len() as u128));
     if total <= cap as u128 {
         let mut out: Vec<Vec<Option<Value>>> = vec![vec![]];
         for d in doms {
